@@ -211,3 +211,47 @@ func init() {
 		}
 	}
 }
+
+func init() {
+	debugHooks["libptr"] = func(P *Program, M *Model, arg string) {
+		seen := map[string]int{}
+		for _, fn := range P.ModFuncs {
+			allInstrs(fn, func(b *ssa.BasicBlock, ins ssa.Instruction) {
+				call, ok := ins.(*ssa.Call)
+				if !ok {
+					return
+				}
+				callee := call.Call.StaticCallee()
+				if callee != nil && P.IsProductFunc(callee) {
+					return
+				}
+				if _, isB := call.Call.Value.(*ssa.Builtin); isB {
+					return
+				}
+				t := call.Type()
+				if tup, isT := t.(*types.Tuple); isT {
+					if tup.Len() == 0 {
+						return
+					}
+					t = tup.At(0).Type()
+				}
+				if !isPointerLike(t) {
+					return
+				}
+				n := P.calleeName(call.Common())
+				if _, known := nilableCalls[n]; known {
+					return
+				}
+				seen[n]++
+			})
+		}
+		var l []string
+		for n, k := range seen {
+			l = append(l, fmt.Sprintf("%3d %s", k, n))
+		}
+		sort.Strings(l)
+		for _, x := range l {
+			fmt.Println(x)
+		}
+	}
+}
